@@ -30,11 +30,13 @@ def reverse_dfs_recursive(state: int, reversed_transitions: dict, reaching_state
             rec_reaching_states: the list of states that reach the input state (or a final state)
     """
     rec_reaching_states = reaching_states.copy()
-    rec_reaching_states.append(state)
-    for next_state in reversed_transitions[state]:
-        if next_state not in reaching_states:
-            rec_reaching_states = reverse_dfs_recursive(
-                next_state, reversed_transitions, rec_reaching_states)
+    pending = [state]
+    while pending:
+        current = pending.pop()
+        if current in rec_reaching_states:
+            continue
+        rec_reaching_states.append(current)
+        pending.extend(reversed(reversed_transitions[current]))
     return rec_reaching_states
 
 
